@@ -313,8 +313,9 @@ func master(ck Check, tier string, seed int64, only string) int {
 			b, rerr := os.ReadFile(outf)
 			if rerr != nil || json.Unmarshal(b, res) != nil {
 				lb, _ := os.ReadFile(logf)
-				if len(lb) > 4000 {
-					lb = lb[len(lb)-4000:]
+				if len(lb) > 8000 {
+					// keep the head (fatal error / panic message) and the tail
+					lb = append(append(append([]byte{}, lb[:5000]...), []byte("\n...\n")...), lb[len(lb)-3000:]...)
 				}
 				res = &Result{Broken: fmt.Sprintf("worker %s/%d died: %v\n%s", j.part.Name, j.shard, err, lb)}
 			}
